@@ -354,6 +354,34 @@ theorem injectSections_good : ∀ {inps : List Section} {secs secs' : List Secti
         refine ⟨?_, by simp [hn]⟩
         simpa [recsOf, List.append_assoc] using g2
 
+theorem injectSections_cons_inv {inp : Section} {rest secs secs' : List Section} {offs : List (String × Nat)}
+    (h : injectSections secs (inp :: rest) = .ok (secs', offs)) :
+    ∃ secs1 off offs2, injectSection secs inp = .ok (secs1, off) ∧
+      injectSections secs1 rest = .ok (secs', offs2) ∧ offs = (inp.name, off) :: offs2 := by
+  unfold injectSections at h
+  cases h1 : injectSection secs inp with
+  | error e => simp [h1] at h
+  | ok p1 =>
+    obtain ⟨secs1, off⟩ := p1
+    simp only [h1] at h
+    cases h2 : injectSections secs1 rest with
+    | error e => simp [h2] at h
+    | ok p2 =>
+      obtain ⟨secs2, offs2⟩ := p2
+      simp only [h2, Except.ok.injEq, Prod.mk.injEq] at h
+      obtain ⟨e1, e2⟩ := h
+      subst e1; subst e2
+      exact ⟨secs1, off, offs2, rfl, h2, rfl⟩
+
+theorem injectSections_names : ∀ {inps : List Section} {secs secs' : List Section} {offs : List (String × Nat)},
+    injectSections secs inps = .ok (secs', offs) → offs.map (·.1) = inps.map (·.name)
+  | [], secs, secs', offs, h => by
+    simp [injectSections] at h; simp [← h.2]
+  | inp :: rest, secs, secs', offs, h => by
+    obtain ⟨secs1, off, offs2, _, h2, e⟩ := injectSections_cons_inv h
+    subst e
+    simp [injectSections_names h2]
+
 /-! ### inversion of `inject_object` / `merge_objects` -/
 
 theorem injectObject_inv {dst obj dst' : Obj} {t : ObjTrace} (h : injectObject dst obj = .ok (dst', t)) :
@@ -406,7 +434,7 @@ theorem mergeObjects_cons_inv {dst o : Obj} {rest : List Obj} {dst' : Obj} {tr :
 
 theorem mergeObjects_nil_inv {dst dst' : Obj} {tr : List ObjTrace} (h : mergeObjects dst [] = .ok (dst', tr)) :
     dst' = dst ∧ tr = [] := by
-  simp [mergeObjects] at h; exact ⟨h.1.symm, h.2.symm⟩
+  simp [mergeObjects] at h; exact ⟨h.1.symm, h.2⟩
 
 theorem mergeObjects_good : ∀ {objs : List Obj} {dst dst' : Obj} {tr : List ObjTrace} {recs : List Rec},
     mergeObjects dst objs = .ok (dst', tr) → Good dst.sections recs →
@@ -420,6 +448,34 @@ theorem mergeObjects_good : ∀ {objs : List Obj} {dst dst' : Obj} {tr : List Ob
     have ⟨g1, _⟩ := injectSections_good (injectObject_inv h1).1 g
     have g2 := mergeObjects_good h2 g1
     simpa [traceRecs, List.append_assoc] using g2
+
+/-- pointwise relation of two lists of equal length -/
+inductive All2 {α β : Type} (R : α → β → Prop) : List α → List β → Prop
+  | nil : All2 R [] []
+  | cons {a b as bs} : R a b → All2 R as bs → All2 R (a :: as) (b :: bs)
+
+theorem All2.length_eq {α β : Type} {R : α → β → Prop} {as : List α} {bs : List β} (h : All2 R as bs) :
+    as.length = bs.length := by
+  induction h with
+  | nil => rfl
+  | cons _ _ ih => simp [ih]
+
+theorem All2.of_mem_zip {α β : Type} {R : α → β → Prop} {as : List α} {bs : List β} (h : All2 R as bs) :
+    ∀ p ∈ as.zip bs, R p.1 p.2 := by
+  induction h with
+  | nil => simp
+  | cons hr _ ih =>
+    intro p hp
+    simp only [List.zip_cons_cons, List.mem_cons] at hp
+    rcases hp with hp | hp
+    · subst hp; exact hr
+    · exact ih p hp
+
+theorem All2.imp {α β : Type} {R S : α → β → Prop} {as : List α} {bs : List β} (h : All2 R as bs)
+    (hrs : ∀ a b, R a b → S a b) : All2 S as bs := by
+  induction h with
+  | nil => exact .nil
+  | cons hr _ ih => exact .cons (hrs _ _ hr) ih
 
 /-- shape of the trace: one entry per object, one offset per section (carrying its name), one id per symbol -/
 def TraceShape (o : Obj) (t : ObjTrace) : Prop :=
@@ -446,7 +502,7 @@ theorem injectSymbols_length : ∀ {inps : List Symbol} {offs : List (String × 
         simp [injectSymbols_length h2]
 
 theorem mergeObjects_shape : ∀ {objs : List Obj} {dst dst' : Obj} {tr : List ObjTrace},
-    mergeObjects dst objs = .ok (dst', tr) → List.Forall₂ TraceShape objs tr
+    mergeObjects dst objs = .ok (dst', tr) → All2 TraceShape objs tr
   | [], dst, dst', tr, h => by
     obtain ⟨_, e2⟩ := mergeObjects_nil_inv h
     subst e2; exact .nil
@@ -454,7 +510,331 @@ theorem mergeObjects_shape : ∀ {objs : List Obj} {dst dst' : Obj} {tr : List O
     obtain ⟨dst1, t, ts, h1, h2, e⟩ := mergeObjects_cons_inv h
     subst e
     have inv := injectObject_inv h1
-    have ⟨_, hn⟩ := injectSections_good inv.1 Good.nil.{0} |> fun x => x
+    have hn := injectSections_names inv.1
     exact .cons ⟨hn, injectSymbols_length inv.2.1⟩ (mergeObjects_shape h2)
+
+/-! ### symbol tables -/
+
+/-- `b` extends `a`: positions, ids, names and bindings are kept and a defined symbol never changes -/
+def Ext (a b : List Symbol) : Prop :=
+  ∀ (i : Nat) (x : Symbol), a[i]? = some x → ∃ y : Symbol, b[i]? = some y ∧ y.id = x.id ∧ y.name = x.name ∧ y.binding = x.binding ∧
+    (x.value.isSome → y = x)
+
+/-- ids are positions (`inject_symbol` uses `len(symbols)`) -/
+def IdInv (a : List Symbol) : Prop := ∀ (i : Nat) (x : Symbol), a[i]? = some x → x.id = i
+
+theorem Ext.refl (a : List Symbol) : Ext a a := fun _ x h => ⟨x, h, rfl, rfl, rfl, fun _ => rfl⟩
+
+theorem Ext.trans {a b c : List Symbol} (h1 : Ext a b) (h2 : Ext b c) : Ext a c := by
+  intro i x hx
+  obtain ⟨y, hy, e1, e2, e3, e4⟩ := h1 i x hx
+  obtain ⟨z, hz, f1, f2, f3, f4⟩ := h2 i y hy
+  refine ⟨z, hz, f1.trans e1, f2.trans e2, f3.trans e3, fun hv => ?_⟩
+  have := e4 hv
+  subst this
+  exact f4 hv
+
+theorem Ext.append (a l : List Symbol) : Ext a (a ++ l) := by
+  intro i x hx
+  have hi : i < a.length := by
+    rcases Nat.lt_or_ge i a.length with h | h
+    · exact h
+    · rw [List.getElem?_eq_none h] at hx; cases hx
+  exact ⟨x, by rw [List.getElem?_append_left hi]; exact hx, rfl, rfl, rfl, fun _ => rfl⟩
+
+theorem Ext.defineGlobal (a : List Symbol) (n : String) (sect : Option String) (v : Nat) :
+    Ext a (defineGlobal a n sect v) := by
+  intro i x hx
+  unfold Model.Linker.defineGlobal
+  rw [List.getElem?_map, hx]
+  simp only [Option.map_some]
+  by_cases hc : (x.isGlobal && x.name == n && x.value.isNone) = true
+  · rw [if_pos hc]
+    refine ⟨_, rfl, rfl, rfl, rfl, fun hv => ?_⟩
+    simp at hc
+    rw [hc.2] at hv; cases hv
+  · rw [if_neg hc]
+    exact ⟨x, rfl, rfl, rfl, rfl, fun _ => rfl⟩
+
+theorem IdInv.nil : IdInv [] := by intro i x h; simp at h
+
+theorem IdInv.append_one {a : List Symbol} (h : IdInv a) (s : Symbol) (hs : s.id = a.length) : IdInv (a ++ [s]) := by
+  intro i x hx
+  rcases Nat.lt_or_ge i a.length with hi | hi
+  · rw [List.getElem?_append_left hi] at hx; exact h i x hx
+  · rw [List.getElem?_append_right hi] at hx
+    rcases Nat.eq_or_lt_of_le hi with e | e
+    · rw [← e] at hx; simp at hx; subst hx; omega
+    · have : i - a.length ≥ 1 := by omega
+      rw [List.getElem?_eq_none (by simp; omega)] at hx; cases hx
+
+theorem IdInv.defineGlobal {a : List Symbol} (h : IdInv a) (n : String) (sect : Option String) (v : Nat) :
+    IdInv (defineGlobal a n sect v) := by
+  intro i x hx
+  unfold Model.Linker.defineGlobal at hx
+  rw [List.getElem?_map] at hx
+  cases ha : a[i]? with
+  | none => rw [ha] at hx; cases hx
+  | some y =>
+    rw [ha] at hx
+    simp only [Option.map_some, Option.some.injEq] at hx
+    have := h i y ha
+    rw [← hx]
+    split <;> exact this
+
+theorem find_by_id : ∀ (l : List Symbol) (off i : Nat) (y : Symbol),
+    (∀ (j : Nat) (x : Symbol), l[j]? = some x → x.id = off + j) → l[i]? = some y →
+    l.find? (fun s => s.id == off + i) = some y
+  | [], _, _, _, _, h => by simp at h
+  | a :: l, off, 0, y, hinv, h => by
+    simp at h; subst h
+    have := hinv 0 a (by simp)
+    simp [this]
+  | a :: l, off, i + 1, y, hinv, h => by
+    have ha := hinv 0 a (by simp)
+    have hne : (a.id == off + (i + 1)) = false := by simp [ha]
+    rw [List.find?_cons, hne]
+    have := find_by_id l (off + 1) i y (fun j x hx => by
+      have := hinv (j + 1) x (by simpa using hx)
+      omega) (by simpa using h)
+    simp only at this ⊢
+    rw [show off + (i + 1) = off + 1 + i by omega]
+    exact this
+
+theorem getSymbolIdValue_of {o : Obj} {id : Nat} {y : Symbol} {v : Nat} {n : String} {sec : Section}
+    (hinv : IdInv o.symbols) (hy : o.symbols[id]? = some y) (hv : y.value = some v) (hn : y.sect = some n)
+    (hs : getSec o.sections n = some sec) : getSymbolIdValue o id = .ok (v + sec.address) := by
+  unfold getSymbolIdValue
+  have := find_by_id o.symbols 0 id y (fun j x hx => by simpa using hinv j x hx) hy
+  simp only [Nat.zero_add] at this
+  rw [this]
+  simp only [hv, hn, hs]
+
+theorem getSymbolIdValue_abs {o : Obj} {id : Nat} {y : Symbol} {v : Nat}
+    (hinv : IdInv o.symbols) (hy : o.symbols[id]? = some y) (hv : y.value = some v) (hn : y.sect = none) :
+    getSymbolIdValue o id = .ok v := by
+  unfold getSymbolIdValue
+  have := find_by_id o.symbols 0 id y (fun j x hx => by simpa using hinv j x hx) hy
+  simp only [Nat.zero_add] at this
+  rw [this]
+  simp only [hv, hn]
+
+theorem addSymbol_ok {syms syms' : List Symbol} {s : Symbol} (h : addSymbol syms s = .ok syms') :
+    syms' = syms ++ [s] ∧ (s.isGlobal = true → findGlobal syms s.name = none) := by
+  unfold addSymbol at h
+  split at h
+  · cases h
+  · rename_i hc
+    simp only [Except.ok.injEq] at h
+    refine ⟨h.symm, fun hg => ?_⟩
+    simp [hg] at hc
+    exact hc
+
+theorem injectSymbol_ok {syms syms' : List Symbol} {name : String} {b : Binding} {sect : Option String}
+    {value : Option Nat} {typ : String} {size id : Nat}
+    (h : injectSymbol syms name b sect value typ size = .ok (syms', id)) :
+    id = syms.length ∧ syms' = syms ++ [{ id := syms.length, name, binding := b, value, sect, typ, size }] := by
+  unfold injectSymbol at h
+  cases h1 : addSymbol syms { id := syms.length, name, binding := b, value, sect, typ, size } with
+  | error e => simp [h1] at h
+  | ok s1 =>
+    simp only [h1, Except.ok.injEq, Prod.mk.injEq] at h
+    obtain ⟨e1, e2⟩ := h
+    subst e1; subst e2
+    exact ⟨rfl, (addSymbol_ok h1).1⟩
+
+theorem findGlobal_some {syms : List Symbol} {n : String} {g : Symbol} (h : findGlobal syms n = some g) :
+    g.isGlobal = true ∧ g.name = n ∧ ∃ i : Nat, syms[i]? = some g := by
+  unfold findGlobal at h
+  have h1 := List.find?_some h
+  have h2 := List.mem_of_find?_eq_some h
+  simp at h1
+  exact ⟨h1.1, h1.2, List.getElem?_of_mem h2⟩
+
+/-- what is known about the table entry a processed symbol is mapped to -/
+def SymAt (syms : List Symbol) (id : Nat) (name : String) (b : Binding) (value : Option Nat)
+    (sect : Option String) : Prop :=
+  ∃ y, syms[id]? = some y ∧ y.name = name ∧ y.binding = b ∧ (∀ v, value = some v → y.value = some v ∧ y.sect = sect)
+
+theorem SymAt.ext {syms syms' : List Symbol} {id : Nat} {name : String} {b : Binding} {value : Option Nat}
+    {sect : Option String} (h : SymAt syms id name b value sect) (e : Ext syms syms') :
+    SymAt syms' id name b value sect := by
+  obtain ⟨y, hy, h1, h2, h3⟩ := h
+  obtain ⟨z, hz, _, f2, f3, f4⟩ := e id y hy
+  refine ⟨z, hz, f2.trans h1, f3.trans h2, fun v hv => ?_⟩
+  have := h3 v hv
+  have hz' : z = y := f4 (by rw [this.1]; rfl)
+  subst hz'; exact this
+
+theorem injectSymbol_spec {syms syms' : List Symbol} {name : String} {b : Binding} {sect : Option String}
+    {value : Option Nat} {typ : String} {size id : Nat}
+    (h : injectSymbol syms name b sect value typ size = .ok (syms', id)) (hinv : IdInv syms) :
+    Ext syms syms' ∧ IdInv syms' ∧ SymAt syms' id name b value sect := by
+  obtain ⟨e1, e2⟩ := injectSymbol_ok h
+  subst e1; subst e2
+  refine ⟨Ext.append _ _, hinv.append_one _ rfl,
+    ⟨{ id := syms.length, name, binding := b, value, sect, typ, size }, ?_, rfl, rfl, fun v hv => ⟨hv, rfl⟩⟩⟩
+  simp
+
+theorem mergeGlobal_spec {syms syms' : List Symbol} {name : String} {sect : Option String}
+    {value : Option Nat} {typ : String} {size id : Nat}
+    (h : mergeGlobal syms name sect value typ size = .ok (syms', id)) (hinv : IdInv syms) :
+    Ext syms syms' ∧ IdInv syms' ∧ SymAt syms' id name .global value sect := by
+  unfold mergeGlobal at h
+  cases hf : findGlobal syms name with
+  | none =>
+    rw [hf] at h
+    exact injectSymbol_spec h hinv
+  | some g =>
+    rw [hf] at h
+    obtain ⟨hg, hn, i, hi⟩ := findGlobal_some hf
+    have hid : g.id = i := hinv i g hi
+    have hb : g.binding = .global := by
+      unfold Symbol.isGlobal at hg; simpa using hg
+    cases value with
+    | none =>
+      simp only [Except.ok.injEq, Prod.mk.injEq] at h
+      obtain ⟨e1, e2⟩ := h
+      subst e1; subst e2
+      exact ⟨Ext.refl _, hinv, ⟨g, by rw [hid]; exact hi, hn, hb, fun v hv => by cases hv⟩⟩
+    | some v =>
+      simp only at h
+      split at h
+      · rename_i hnone
+        simp only [Except.ok.injEq, Prod.mk.injEq] at h
+        obtain ⟨e1, e2⟩ := h
+        subst e1; subst e2
+        refine ⟨Ext.defineGlobal _ _ _ _, hinv.defineGlobal _ _ _, ?_⟩
+        refine ⟨{ g with value := some v, sect := sect }, ?_, hn, hb, fun w hw => ?_⟩
+        · rw [hid]
+          unfold Model.Linker.defineGlobal
+          rw [List.getElem?_map, hi]
+          have hnone' : g.value = none := by simpa using hnone
+          simp [hg, hn, hnone', hid]
+        · cases hw; exact ⟨rfl, rfl⟩
+      · cases h
+
+/-- the table entry of input symbol `s` (of an object whose `section_offsets` are `offs`) -/
+def SymOK (syms : List Symbol) (offs : List (String × Nat)) (s : Symbol) (id : Nat) : Prop :=
+  ∃ y : Symbol, syms[id]? = some y ∧ y.name = s.name ∧ y.binding = s.binding ∧
+    ∀ v n, s.value = some v → s.sect = some n →
+      ∃ o, dictGet offs n = some o ∧ y.value = some (o + v) ∧ y.sect = some n
+
+theorem SymOK.ext {syms syms' : List Symbol} {offs : List (String × Nat)} {s : Symbol} {id : Nat}
+    (h : SymOK syms offs s id) (e : Ext syms syms') : SymOK syms' offs s id := by
+  obtain ⟨y, hy, h1, h2, h3⟩ := h
+  obtain ⟨z, hz, _, f2, f3, f4⟩ := e id y hy
+  refine ⟨z, hz, f2.trans h1, f3.trans h2, fun v n hv hn => ?_⟩
+  obtain ⟨o, ho, hyv, hys⟩ := h3 v n hv hn
+  have hz' : z = y := f4 (by rw [hyv]; rfl)
+  subst hz'; exact ⟨o, ho, hyv, hys⟩
+
+theorem shiftSymbol_ok {offs : List (String × Nat)} {s : Symbol} {value : Option Nat} {sect : Option String}
+    (h : shiftSymbol offs s = .ok (value, sect)) :
+    (s.value = none → value = none ∧ sect = none) ∧
+    (∀ v, s.value = some v → ∃ n o, s.sect = some n ∧ dictGet offs n = some o ∧ value = some (o + v) ∧ sect = some n) := by
+  unfold shiftSymbol at h
+  cases hv : s.value with
+  | none =>
+    simp only [hv, Except.ok.injEq, Prod.mk.injEq] at h
+    exact ⟨fun _ => ⟨h.1.symm, h.2.symm⟩, fun v hv' => by cases hv'⟩
+  | some v =>
+    simp only [hv] at h
+    cases hn : s.sect with
+    | none => simp [hn] at h
+    | some n =>
+      simp only [hn] at h
+      cases ho : dictGet offs n with
+      | none => simp [ho] at h
+      | some o =>
+        simp only [ho, Except.ok.injEq, Prod.mk.injEq] at h
+        refine ⟨fun h' => (by cases h'), fun w hw => ?_⟩
+        cases hw
+        exact ⟨n, o, rfl, ho, h.1.symm, h.2.symm⟩
+
+theorem injectOneSymbol_spec {offs : List (String × Nat)} {syms syms' : List Symbol} {s : Symbol} {id : Nat}
+    (h : injectOneSymbol offs syms s = .ok (syms', id)) (hinv : IdInv syms) :
+    Ext syms syms' ∧ IdInv syms' ∧ SymOK syms' offs s id := by
+  unfold injectOneSymbol at h
+  cases hs : shiftSymbol offs s with
+  | error e => simp [hs] at h
+  | ok p =>
+    obtain ⟨value, sect⟩ := p
+    simp only [hs] at h
+    have ⟨_, hdef⟩ := shiftSymbol_ok hs
+    have key : ∀ b, b = s.binding → SymAt syms' id s.name b value sect → SymOK syms' offs s id := by
+      intro b hb ⟨y, hy, h1, h2, h3⟩
+      refine ⟨y, hy, h1, h2.trans hb, fun v n hv hn => ?_⟩
+      obtain ⟨n', o, hn', ho, hval, hsect⟩ := hdef v hv
+      rw [hn] at hn'; cases hn'
+      have := h3 (o + v) hval
+      exact ⟨o, ho, this.1, this.2.trans hsect⟩
+    by_cases hg : s.isGlobal = true
+    · simp only [hg, if_true] at h
+      have ⟨e, i, a⟩ := mergeGlobal_spec h hinv
+      have hb : Binding.global = s.binding := by
+        unfold Symbol.isGlobal at hg; simp at hg; exact hg.symm
+      exact ⟨e, i, key _ hb a⟩
+    · simp only [hg] at h
+      have ⟨e, i, a⟩ := injectSymbol_spec h hinv
+      exact ⟨e, i, key _ rfl a⟩
+
+theorem injectSymbols_cons_inv {offs : List (String × Nat)} {s : Symbol} {rest syms syms' : List Symbol}
+    {ids : List Nat} (h : injectSymbols offs syms (s :: rest) = .ok (syms', ids)) :
+    ∃ syms1 id ids2, injectOneSymbol offs syms s = .ok (syms1, id) ∧
+      injectSymbols offs syms1 rest = .ok (syms', ids2) ∧ ids = id :: ids2 := by
+  unfold injectSymbols at h
+  cases h1 : injectOneSymbol offs syms s with
+  | error e => simp [h1] at h
+  | ok p1 =>
+    obtain ⟨syms1, id⟩ := p1
+    simp only [h1] at h
+    cases h2 : injectSymbols offs syms1 rest with
+    | error e => simp [h2] at h
+    | ok p2 =>
+      obtain ⟨syms2, ids2⟩ := p2
+      simp only [h2, Except.ok.injEq, Prod.mk.injEq] at h
+      obtain ⟨e1, e2⟩ := h
+      subst e1; subst e2
+      exact ⟨syms1, id, ids2, rfl, h2, rfl⟩
+
+theorem injectSymbols_spec : ∀ {inps : List Symbol} {offs : List (String × Nat)} {syms syms' : List Symbol}
+    {ids : List Nat}, injectSymbols offs syms inps = .ok (syms', ids) → IdInv syms →
+    Ext syms syms' ∧ IdInv syms' ∧ ∀ q ∈ inps.zip ids, SymOK syms' offs q.1 q.2
+  | [], offs, syms, syms', ids, h, hinv => by
+    simp [injectSymbols] at h
+    obtain ⟨e1, e2⟩ := h
+    subst e1; subst e2
+    exact ⟨Ext.refl _, hinv, by simp⟩
+  | s :: rest, offs, syms, syms', ids, h, hinv => by
+    obtain ⟨syms1, id, ids2, h1, h2, e⟩ := injectSymbols_cons_inv h
+    subst e
+    have ⟨e1, i1, ok1⟩ := injectOneSymbol_spec h1 hinv
+    have ⟨e2, i2, ok2⟩ := injectSymbols_spec h2 i1
+    refine ⟨e1.trans e2, i2, fun q hq => ?_⟩
+    simp only [List.zip_cons_cons, List.mem_cons] at hq
+    rcases hq with hq | hq
+    · subst hq; exact ok1.ext e2
+    · exact ok2 q hq
+
+/-- symbol part of the merge: every input symbol of every object has its table entry -/
+theorem mergeObjects_syms : ∀ {objs : List Obj} {dst dst' : Obj} {tr : List ObjTrace},
+    mergeObjects dst objs = .ok (dst', tr) → IdInv dst.symbols →
+    Ext dst.symbols dst'.symbols ∧ IdInv dst'.symbols ∧
+    ∀ p ∈ objs.zip tr, ∀ q ∈ p.1.symbols.zip p.2.symIds, SymOK dst'.symbols p.2.offsets q.1 q.2
+  | [], dst, dst', tr, h, hinv => by
+    obtain ⟨e1, e2⟩ := mergeObjects_nil_inv h
+    subst e1; subst e2
+    exact ⟨Ext.refl _, hinv, by simp⟩
+  | o :: rest, dst, dst', tr, h, hinv => by
+    obtain ⟨dst1, t, ts, h1, h2, e⟩ := mergeObjects_cons_inv h
+    subst e
+    have ⟨e1, i1, ok1⟩ := injectSymbols_spec (injectObject_inv h1).2.1 hinv
+    have ⟨e2, i2, ok2⟩ := mergeObjects_syms h2 i1
+    refine ⟨e1.trans e2, i2, fun p hp => ?_⟩
+    simp only [List.zip_cons_cons, List.mem_cons] at hp
+    rcases hp with hp | hp
+    · subst hp; exact fun q hq => (ok1 q hq).ext e2
+    · exact ok2 p hp
 
 end Proofs.Linker
